@@ -276,6 +276,9 @@ def C15(run):
 def C20(run):
     run.static()
     gen_gap(run)          # the blank-line pattern is of the shape literal class* literal (no nested quantifier): regenerated and proved equal to a structural scan
+    rc, out = sh([PY, '-W', 'ignore', os.path.join(VERIF, 'tools', 'regex_shapes.py'), REPO], timeout=120)      # twelfth round: every pattern the package hands to `re`, not only the one gap2v translates
+    run.oblige('scan:regex-star-height(every pattern passed to re.*: no unbounded repetition nested in a repetition; non-literal patterns refused)', rc == 0,
+               '; '.join(l for l in out.split('\n') if l.startswith('REFUSED'))[:1500] if rc else out.strip().split('\n')[-1])
     run.props()
     big = run.tier == 'thorough'
     run.suite('cost', 'cost_corr.py', [run.seed, 12 if big else 10], 'CO')
